@@ -314,13 +314,31 @@ func c10StartReaders(c *mon.Ctx, n, stream int) (stop func()) {
 						c.V("names-unsorted-under-concurrency", "Names() observed unsorted while other goroutines lint", "", nil, nil)
 					}
 				case 1:
-					_ = reg.Sources()
+					// the source lists are the caller's to sort ("can be sorted by the caller with sort.Sort()"): do so, in
+					// both directions, and expect the list just obtained to stay a permutation of what was obtained
 					_ = reg.CertificateLints().Names()
 					_ = reg.RevocationListLints().Names()
 					_ = reg.OcspResponseLints().Names()
-					_ = reg.CertificateLints().Sources()
-					_ = reg.RevocationListLints().Sources()
-					_ = reg.OcspResponseLints().Sources()
+					for _, sl := range []lint.SourceList{reg.Sources(), reg.CertificateLints().Sources(), reg.RevocationListLints().Sources(), reg.OcspResponseLints().Sources()} {
+						want := map[lint.LintSource]int{}
+						for _, x := range sl {
+							want[x]++
+						}
+						if (k+r)%16 < 8 {
+							sort.Sort(sl)
+						} else {
+							sort.Sort(sort.Reverse(sl))
+						}
+						for _, x := range sl {
+							want[x]--
+						}
+						for x, n := range want {
+							if n != 0 {
+								c.V("source-list-changed-under-its-holder", fmt.Sprintf("a source list obtained from the registry is no longer a permutation of itself after its holder sorted it while other goroutines read the registry (source %q off by %d)", x, n), "", nil, nil)
+								break
+							}
+						}
+					}
 				case 2:
 					n := Inv[rng.Intn(len(Inv))].Name
 					_ = reg.CertificateLints().ByName(n)
